@@ -55,6 +55,11 @@ TABLE = {
             "Held on the generated cases x output modes: printed text = the file's line at the printed number, offsets and columns identify the line and its leftmost match, JSON lines/submatches are exact slices (text iff valid UTF-8), --passthru reproduces the input, messages form begin (match|context)* end.",
             "Lines hit by the regex-engine quirk recorded under C01 (Unicode word boundary next to invalid UTF-8) are skipped for the column check; column checked on the first line of a multi-line block only.",
             "DESIGN.md §3 C09"),
+    "C10": (True, "exploration",
+            "runtime metamorphic monitoring: the same search is run under default, --count, --count-matches, --only-matching, -l, --files-without-match, -q, --json, --stats and --files, and the per-file numbers and file sets are checked against the relations stated in the property",
+            "Held on the generated trees x patterns (incl. empty-matching patterns, anchors, word boundaries) x flags, apart from one listed known finding (-U together with -m N): counts, record numbers, JSON match/submatch numbers, file lists, exit statuses and --stats totals agree.",
+            "No external oracle: only rg vs rg. Text files without NUL bytes. Under -U the -o record count is not compared and --count may follow either of two documented readings.",
+            "DESIGN.md §3 C10"),
     "C11": (True, "exploration",
             "runtime monitoring of the built RegexMatcher's promises (line_terminator, non_matching_bytes, find_candidate_line, is_match) against a reference engine on language-directed and exhaustive small-alphabet lines; the two grep-regex HIR hooks steer the sampler",
             "No witness found among the lines produced: terminator never inside a match, language over terminator-free lines unchanged, declared non-matching bytes never inside a match, candidate search never passes over a matching line; patterns requiring the terminator were rejected. The 'over ALL lines' quantifier is only approximated (see level_note).",
